@@ -1,99 +1,59 @@
 (** Statements for C15, registry clause: "a rule with a schedule is registered
     with the cron service exactly while it exists".
-    The instrumented step [cstep] performs an operation of the state API and
-    applies to the cron registry the calls the model of cron/corehooks.go makes
-    (CronHooks.v).  Definitions and statements only; proofs in CronHooksProofs.v. *)
+    The instrumented step [cstep] performs an operation of the state API - or
+    reloads the state from its storage - and applies to the cron registry the
+    calls the model of cron/corehooks.go makes (CronHooks.v).  Definitions and
+    statements only; proofs in CronHooksProofs.v and CronHooksHist.v. *)
 From Verif Require Import Json Outcome Match PatIndex State Location CronHooks StateSpec DurableSpec.
 
 (** * The instrumented step *)
 
-Definition cstep (persistent : bool) (sr : state * registry) (o : sop * Z) : state * registry :=
-  let '(s, reg) := sr in
-  let '(op, now) := o in
-  match op with
-  | SAdd g x fr aux =>
-      let '(s', r) := st_add s g x now fr aux in
-      (s', fold_left apply_call (calls_add persistent false s' r) reg)
-  | SRem id => (fst (st_Rem s id now), fold_left apply_call (calls_rem s id now) reg)
-  | SGet id => (fst (st_get s id now), reg)
-  | SSearch p => (fst (st_search s p now), reg)
-  | SFind ev => (fst (st_find_rules s ev now), reg)
-  | SClear => (fst (st_clear s), fold_left apply_call (calls_clear s now) reg)
+(** an operation of the state API, or a restart of the location (State.Load
+    into a fresh state over the same storage) *)
+Inductive cop :=
+| COp (o : sop)
+| CReload.
+
+(** the state after the operation *)
+Definition cstate_step (s : state) (o : cop * Z) : state :=
+  match fst o with
+  | COp op => sstep s (op, snd o)
+  | CReload => fst (st_load (st_kind s) (st_hooks s) (st_store s) (snd o))
   end.
+
+(** the calls the cron service receives during the operation *)
+Definition ccalls (persistent : bool) (s : state) (o : cop * Z) : list ccall :=
+  let now := snd o in
+  match fst o with
+  | COp (SAdd g x fr aux) =>
+      let '(s', r) := st_add s g x now fr aux in calls_add persistent false s s' r
+  | COp (SRem id) => calls_Rem s id now
+  | COp (SGet id) => calls_get s id now
+  | COp (SSearch p) => calls_search s p now
+  | COp (SFind ev) => calls_find s ev now
+  | COp SClear => calls_clear s
+  | CReload => calls_load persistent (st_store s) now (cstate_step s o)
+  end.
+
+(** a cron service that is not persistent has forgotten its jobs when the
+    location is loaded again (a restart) *)
+Definition reg_before (persistent : bool) (reg : registry) (o : cop * Z) : registry :=
+  match fst o with
+  | CReload => if persistent then reg else []
+  | COp _ => reg
+  end.
+
+Definition cstep (persistent : bool) (sr : state * registry) (o : cop * Z) : state * registry :=
+  (cstate_step (fst sr) o,
+   fold_left apply_call (ccalls persistent (fst sr) o) (reg_before persistent (snd sr) o)).
 
 (** hooks installed, no storage failure, empty registry *)
 Definition cinit (k : skind) : state * registry := (set_fail (empty_state k true) None, []).
 
-Definition crun (persistent : bool) (k : skind) (ops : list (sop * Z)) : state * registry :=
+Definition crun (persistent : bool) (k : skind) (ops : list (cop * Z)) : state * registry :=
   fold_left (cstep persistent) ops (cinit k).
 
-(** * Direct operations: the operations that are not one of the known bypasses *)
-
 Definition is_some {A} (o : option A) : bool := match o with Some _ => true | None => false end.
-
-(** every scheduled rule of [s] other than [id] is still stored in [s'] *)
-Definition others_kept (s s' : state) (id : string) : bool :=
-  forallb (fun js => String.eqb (fst js) id || is_some (alookup (fst js) (st_facts s'))) (scheduled_rules s).
-
-(** [direct s o]: in state [s] the operation [o] is none of
-    (a) a successful add of a non-scheduled fact under an id that holds a scheduled rule;
-    (b) a Rem after which a scheduled rule other than the named id has disappeared (deleteWith cascade);
-    (d) a Clear of the linear state while it stores a scheduled rule.
-    ((c), removal by expiry, is excluded by the separate hypothesis that nothing is expired.) *)
-Definition direct (s : state) (o : sop * Z) : bool :=
-  let '(op, now) := o in
-  match op with
-  | SAdd g x fr aux =>
-      match prepare_fact g x now fr aux, snd (st_add s g x now fr aux) with
-      | Ok (id, fact), Ok _ =>
-          negb (is_some (alookup id (scheduled_rules s)) && negb (is_some (fact_schedule fact)))
-      | _, _ => true
-      end
-  | SRem id => others_kept s (fst (st_Rem s id now)) id
-  | SClear => match st_kind s with
-              | Indexed => true
-              | Linear => match scheduled_rules s with [] => true | _ => false end
-              end
-  | _ => true
-  end.
-
-(** The coarser, purely syntactic-on-kind version asked for: any linear Clear
-    and any overwrite attempt (successful or not) is excluded. *)
-Definition direct_coarse (s : state) (o : sop * Z) : bool :=
-  let '(op, now) := o in
-  match op with
-  | SAdd g x fr aux =>
-      match prepare_fact g x now fr aux with
-      | Ok (id, fact) =>
-          negb (is_some (alookup id (scheduled_rules s)) && negb (is_some (fact_schedule fact)))
-      | _ => true
-      end
-  | SRem id => others_kept s (fst (st_Rem s id now)) id
-  | SClear => match st_kind s with Indexed => true | Linear => false end
-  | _ => true
-  end.
-
-(** The history is direct and nothing is expired when an operation runs:
-    a condition on every prefix. *)
-Definition direct_history (persistent : bool) (k : skind) (ops : list (sop * Z)) : Prop :=
-  forall ops1 o ops2, ops = (ops1 ++ o :: ops2)%list ->
-    let s := fst (crun persistent k ops1) in
-    no_expired s (snd o) /\ direct s o = true.
-
-(** Syntactic sufficient condition for "nothing ever expires": no added fact
-    carries a [ttl] or an [expires]. *)
-Definition op_never_expires (o : sop * Z) : bool :=
-  match o with
-  | (SAdd g x fr aux, _) => negb (is_some (alookup "ttl" (jO x))) && negb (is_some (alookup "expires" (jO x)))
-  | _ => true
-  end.
-
-(** ... and the decidable directness check along a run. *)
-Fixpoint direct_run (persistent : bool) (sr : state * registry) (ops : list (sop * Z)) : bool :=
-  match ops with
-  | [] => true
-  | o :: r => direct (fst sr) o && direct_run persistent (cstep persistent sr o) r
-  end.
 
 (** * Statements *)
 
@@ -107,35 +67,73 @@ Definition registry_exact_iff_statement : Prop :=
   forall reg s, st_wf s -> sorted_keys (map fst reg) = true ->
     (registry_exact reg s = true <-> forall id, alookup id reg = alookup id (scheduled_rules s)).
 
+(** One operation of the state API, in ANY state with the hooks installed
+    (whatever is expired, pending, or has failed before): the calls it makes
+    turn an exact registry into an exact registry.  The only hypothesis on
+    the operation is that no storage call fails during it. *)
 Definition cstep_exact_statement : Prop :=
-  forall persistent s reg o s' reg',
+  forall persistent s reg op now,
     registry_exact reg s = true -> st_wf s -> st_hooks s = true -> st_fail s = None ->
-    no_expired s (snd o) -> direct s o = true ->
-    cstep persistent (s, reg) o = (s', reg') ->
+    let '(s', reg') := cstep persistent (s, reg) (COp op, now) in
     registry_exact reg' s' = true.
 
-Definition registry_exact_direct_ops_statement : Prop :=
+(** THE property: for EVERY history of operations - adds, overwrites, removals
+    with their deleteWith cascades, reads with the purge of what has expired,
+    clear, restarts - on either kind of state, with a persistent or a
+    non-persistent cron service, after every operation the registry of the
+    cron service holds exactly the stored scheduled rules, with their
+    schedules. *)
+Definition registry_exact_all_ops_statement : Prop :=
   forall persistent k ops,
-    direct_history persistent k ops ->
-    forall ops1 ops2, ops = (ops1 ++ ops2)%list ->
-      let '(s, reg) := crun persistent k ops1 in registry_exact reg s = true.
-
-(** decidable form: no ttl/expires anywhere, and the boolean directness check *)
-Definition registry_exact_direct_ops_bool_statement : Prop :=
-  forall persistent k ops,
-    forallb op_never_expires ops = true ->
-    direct_run persistent (cinit k) ops = true ->
     let '(s, reg) := crun persistent k ops in registry_exact reg s = true.
 
-Definition load_reregisters_indexed_statement : Prop :=
-  forall s now,
-    st_wf s -> prepared s -> st_store s = st_facts s -> no_expired s now -> all_indexable_in s ->
-    st_kind s = Indexed -> st_hooks s = true ->
-    exists s', st_load Indexed true (st_store s) now = (s', Ok tt) /\
-               st_facts s' = st_facts s /\
-               (* non-persistent cron: the load registers exactly the stored scheduled rules *)
-               registry_exact (fold_left apply_call (calls_load false s') []) s' = true /\
-               (* persistent cron: no call; the registry kept by the service is still exact *)
-               calls_load true s' = [] /\
-               (forall reg, registry_exact reg s = true ->
-                            registry_exact (fold_left apply_call (calls_load true s') reg) s' = true).
+(** ... "after every operation": the same for every prefix of the history *)
+Definition registry_exact_every_prefix_statement : Prop :=
+  forall persistent k ops ops1 ops2, ops = (ops1 ++ ops2)%list ->
+    let '(s, reg) := crun persistent k ops1 in registry_exact reg s = true.
+
+(** Consequences, per path of finding D28 (now repaired): *)
+
+(** (a) after a successful add the id is registered iff the stored fact is a
+    scheduled rule (so an overwrite by anything unscheduled drops the job) *)
+Definition overwrite_unschedules_statement : Prop :=
+  forall persistent k ops g x fr aux now id,
+    let '(s, reg) := crun persistent k ops in
+    snd (st_add s g x now fr aux) = Ok id ->
+    let '(s', reg') := cstep persistent (s, reg) (COp (SAdd g x fr aux), now) in
+    alookup id reg' = match alookup id (st_facts s') with Some f => fact_schedule f | None => None end.
+
+(** (b,c) whatever an operation removes - the named id, its dependents, expired
+    items - has no job afterwards *)
+Definition removed_is_unscheduled_statement : Prop :=
+  forall persistent k ops o j,
+    let '(s', reg') := crun persistent k (ops ++ [o])%list in
+    alookup j (st_facts s') = None -> alookup j reg' = None.
+
+(** (d) after Clear the registry is empty (both kinds) *)
+Definition clear_unschedules_all_statement : Prop :=
+  forall persistent k ops now,
+    snd (crun persistent k (ops ++ [(COp SClear, now)])%list) = [].
+
+(** (e) a restart with a cron service that forgets: the load registers exactly
+    the stored scheduled rules again, on both kinds of state; with a
+    persistent service the registry it kept is exact for the loaded state *)
+Definition load_reregisters_statement : Prop :=
+  forall persistent k ops now,
+    let '(s', reg') := crun persistent k (ops ++ [(CReload, now)])%list in
+    registry_exact reg' s' = true /\
+    (persistent = false ->
+     reg' = fold_left apply_call (calls_load false (st_store (fst (crun persistent k ops))) now s') []).
+
+(** The calls of an operation amount to the difference between the scheduled
+    rules before and after it ([diff_calls], which the correspondence checker
+    uses for compound operations): they have the same effect on the registry. *)
+Definition calls_effect_is_diff_statement : Prop :=
+  forall persistent k ops op now,
+    let '(s, reg) := crun persistent k ops in
+    let '(s', reg') := cstep persistent (s, reg) (COp op, now) in
+    let added := match op with
+                 | SAdd g x fr aux => match snd (st_add s g x now fr aux) with Ok id => Some id | _ => None end
+                 | _ => None
+                 end in
+    reg' = fold_left apply_call (diff_calls persistent s s' added false) reg.
